@@ -7,7 +7,7 @@ From XcpProofs Require Import CopyLoopProofs UpdaterProofs.
 From XcpModel Require Import ConcBlock.
 From XcpProofs Require Import ConcBlockProofs ConcOutcomeProofs.
 From XcpModel Require Import Extracted.
-From XcpProofs Require Import ExtractedOk.
+From XcpProofs Require Import XUpdater.
 From XcpProofs Require Import PinnedSource.
 From XcpPins Require Import Pin_feedback_send.
 
@@ -107,3 +107,22 @@ Print Assumptions C12_size_before_copied.
 Print Assumptions C12_src_premature_end_is_error.
 Print Assumptions C12_src_size_before_copy_is_queued.
 Print Assumptions C12_src_pin_feedback_send.
+
+(* ---- further glue on this property's path, pinned token for token (an edit re-opens the obligation; the run then
+   looks for a failing input) ---- *)
+From XcpPins Require Import Pin_parfile_copy Pin_parblock_copy Pin_parfile_copy_worker Pin_parblock_queue_file_range Pin_feedback_new.
+Theorem C12_src_pin_parfile_copy : pin_unchanged name_parfile_copy.
+Proof. exact pin_parfile_copy. Qed.
+Theorem C12_src_pin_parblock_copy : pin_unchanged name_parblock_copy.
+Proof. exact pin_parblock_copy. Qed.
+Theorem C12_src_pin_parfile_copy_worker : pin_unchanged name_parfile_copy_worker.
+Proof. exact pin_parfile_copy_worker. Qed.
+Theorem C12_src_pin_parblock_queue_file_range : pin_unchanged name_parblock_queue_file_range.
+Proof. exact pin_parblock_queue_file_range. Qed.
+Theorem C12_src_pin_feedback_new : pin_unchanged name_feedback_new.
+Proof. exact pin_feedback_new. Qed.
+Print Assumptions C12_src_pin_parfile_copy.
+Print Assumptions C12_src_pin_parblock_copy.
+Print Assumptions C12_src_pin_parfile_copy_worker.
+Print Assumptions C12_src_pin_parblock_queue_file_range.
+Print Assumptions C12_src_pin_feedback_new.
